@@ -143,27 +143,39 @@ bool hazard_eras<Traits>::guard_ptr<T, MarkedPtr>::acquire_if_equal(const concur
     return p1 == expected;
   }
 
-  const auto era = era_clock.load(std::memory_order_relaxed);
-  XENIUM_VERIF_POINT("hazard_eras.acquire_if_equal.era_loaded");
-  if (he != nullptr && he->guards() == 1) {
-    he->set_era(era);
-  } else {
-    if (he != nullptr) {
-      he->release_guard();
-      // alloc_hazard_era may throw - the guard must not keep a hazard era (or an object) it no longer counts in
-      he = nullptr;
-      this->ptr.reset();
+  // p1 is protected once it was loaded after our hazard era has been published and the era clock has not advanced
+  // since. Comparing the reloaded pointer alone is not enough: the object could have been reclaimed and a younger
+  // object (with a construction era our hazard era does not cover) published at the same address in the meantime.
+  era_t prev_era = he == nullptr ? 0 : he->get_era();
+  for (;;) {
+    const auto era = era_clock.load(std::memory_order_relaxed);
+    XENIUM_VERIF_POINT("hazard_eras.acquire_if_equal.era_loaded");
+    if (era == prev_era) {
+      this->ptr = p1;
+      return true;
     }
 
-    he = local_thread_data().alloc_hazard_era(era);
-  }
+    if (he != nullptr && he->guards() == 1) {
+      he->set_era(era);
+    } else {
+      if (he != nullptr) {
+        he->release_guard();
+        // alloc_hazard_era may throw - the guard must not keep a hazard era (or an object) it no longer counts in
+        he = nullptr;
+        this->ptr.reset();
+      }
 
-  this->ptr = p.load(std::memory_order_relaxed);
-  if (this->ptr != p1) {
-    reset();
-    return false;
+      he = local_thread_data().alloc_hazard_era(era);
+    }
+    prev_era = era;
+
+    // same ordering requirements as for (2)
+    p1 = p.load(order);
+    if (p1 != expected) {
+      reset();
+      return false;
+    }
   }
-  return true;
 }
 
 template <class Traits>
